@@ -129,7 +129,20 @@ func Lt(t *Thread, x, y Value) (bool, error) {
 	return false, compareError(x, y)
 }
 
+// Floats outside of [-2^63, 2^63) cannot be converted to int64, they are
+// respectively smaller or larger than any integer.
+const (
+	minIntAsFloat float64 = -(1 << 63)
+	maxIntAsFloat float64 = 1 << 63 // first float larger than all integers
+)
+
 func ltIntAndFloat(n int64, f float64) bool {
+	if f >= maxIntAsFloat {
+		return true
+	}
+	if f < minIntAsFloat {
+		return false
+	}
 	nf := int64(f)
 	if float64(nf) == f {
 		return n < nf
@@ -138,6 +151,12 @@ func ltIntAndFloat(n int64, f float64) bool {
 }
 
 func ltFloatAndInt(f float64, n int64) bool {
+	if f >= maxIntAsFloat {
+		return false
+	}
+	if f < minIntAsFloat {
+		return true
+	}
 	nf := int64(f)
 	if float64(nf) == f {
 		return nf < n
@@ -146,6 +165,12 @@ func ltFloatAndInt(f float64, n int64) bool {
 }
 
 func leIntAndFloat(n int64, f float64) bool {
+	if f >= maxIntAsFloat {
+		return true
+	}
+	if f < minIntAsFloat {
+		return false
+	}
 	nf := int64(f)
 	if float64(nf) == f {
 		return n <= nf
@@ -154,6 +179,12 @@ func leIntAndFloat(n int64, f float64) bool {
 }
 
 func leFloatAndInt(f float64, n int64) bool {
+	if f >= maxIntAsFloat {
+		return false
+	}
+	if f < minIntAsFloat {
+		return true
+	}
 	nf := int64(f)
 	if float64(nf) == f {
 		return nf <= n
